@@ -1,6 +1,6 @@
 #!/bin/sh
 # Runs the repository's pinned suite (guard off) and checks that every test in BASELINE.stable_pass passes.
-cd /repo || exit 2
+cd "${REPO_DIR:-/repo}" || exit 2
 GOFLAGS=-mod=mod GOPROXY=off go test -json -vet=off -count=1 -timeout 25m ./... > /dev/shm/baseline.json 2>/dev/shm/baseline.err
 python3 - <<'PY'
 import json,sys
